@@ -55,7 +55,7 @@ def generate(rng, n, tier="quick"):
             s = texts.pop()
         else:
             s = rand_text(r, r.range(0, 14))
-        mode = r.weighted([("alone", 5), ("between", 4), ("raw", 3), ("comment", 2), ("around", 4), ("thm", 4), ("rawthm", 3)])
+        mode = r.weighted([("alone", 5), ("between", 4), ("raw", 3), ("comment", 2), ("around", 4), ("thm", 4), ("rawthm", 3), ("inline", 2)])
         data = {"v": "V", "w": ""}
         if mode == "alone":
             if s.endswith("\\"):
@@ -111,6 +111,37 @@ def generate(rng, n, tier="quick"):
             case["id"] = "%s-%06d" % (ID, i)
             cases.append((case, {"mode": mode, "pieces": pieces, "s": L + M + R, "expect": None}))
             continue
+        elif mode == "inline":
+            # text in front of, inside and behind an INLINE PARTIAL DEFINITION (a decorator block: it writes nothing where it stands; its
+            # body comes out where the partial is called).  Exact expectation: each of the two tags removes the blanks in front of it
+            # and the rest of its line when – and only when – it stands alone on its line, judged on the source; every other
+            # character of the three texts comes out, the body at the call
+            import re as _re
+            def piece2(n):
+                t = rand_text(r, n).replace("\r", "").replace("\\", "/")
+                while "{{" in t:
+                    t = t.replace("{{", "{ {")
+                return t + ("x" if t.endswith("{") else "")
+            L = piece2(r.range(0, 5)) + r.pick(["", " ", " \t", "\n", "\n  ", "k: \t", "x ", "\r\n\t", "  "])
+            M = r.pick(["", "\n", "\n  ", " ", "\r\n", "  \n", "y"]) + piece2(r.range(0, 5)) + r.pick(["", "\n", "\n  ", " ", "\r\n\t", "y\n  ", "y \t"])
+            R = r.pick(["", "\n", " \n", "\r\n", " z", "z", "\t\r\n"]) + piece2(r.range(0, 5))
+            def blank_tail(t, at_start):
+                last_ = t[t.rfind("\n") + 1:] if "\n" in t else (t if at_start else None)
+                return last_ is not None and last_.strip(" \t") == ""
+            def blank_head(t):
+                return _re.match(r"^[ \t]*\r?\n", t) is not None
+            def cut_head(t):
+                return _re.sub(r"^[ \t]*\r?\n", "", t, count=1)
+            open_sa = blank_tail(L, True) and blank_head(M)
+            close_sa = blank_tail(M, False) and blank_head(R)
+            L2 = L.rstrip(" \t") if open_sa else L
+            M2 = cut_head(M) if open_sa else M
+            if close_sa:
+                M2 = M2.rstrip(" \t")
+            R2 = cut_head(R) if close_sa else R
+            tpl = L + "{{#*inline \"q\"}}" + M + "{{/inline}}" + R + "|{{> q}}|"
+            exp = L2 + R2 + "|" + M2 + "|"
+            s = L + "|" + M + "|" + R
         elif mode == "thm":
             # the family of the Lean theorem C03.text_around_comment_is_kept: L ++ {{!c}} ++ R for any text L that may
             # stand before a tag, any comment body c, any text R without '{{'; the expectation is the theorem's closed form
